@@ -612,6 +612,21 @@ def oracle_conv(ctx, budget):
                 if bad:
                     ctx.fail('padded_convolve:extrapolate-not-linear', f'padded_convolve(N={n}, M={m}, extrapolate_window={ew}) of {a}*y1 + {b}*y2 is not {a}*out1 + {b}*out2', case)
                     found += 1
+    # C18_convolve_reflect_offset on the implementation: dyadic unit-sum kernels, integer data and offsets (exact in float64)
+    for n in range(1, 9 if budget == 1 else 17):
+        for m in range(1, n + 1):
+            kk = [mrng.randint(0, 8) for _ in range(m - 1)]
+            tot = 64 if m <= 8 else 1024
+            kk = np.array(kk + [tot - sum(kk)], dtype=float) / tot
+            y0 = np.array([mrng.randint(-50, 50) for _ in range(n)], dtype=float)
+            b = float(mrng.choice([-1000, -3, 1, 17, 4096]))
+            r0, rb = call(utils.padded_convolve, y0, kk, mode='reflect'), call(utils.padded_convolve, y0 + b, kk, mode='reflect')
+            ctx.case(('o-conv-offset', n, m), nontrivial=True, kind='oracle:conv:offset')
+            case = {'kind': 'conv', 'data': (y0 + b).tolist(), 'kernel': kk.tolist(), 'mode': 'reflect', 'y': y0.tolist(), 'b': b}
+            if r0[0] != 'ok' or rb[0] != 'ok' or np.shape(rb[1]) != (n,) or \
+                    not np.all(np.abs(np.asarray(rb[1]) - (np.asarray(r0[1]) + b)) <= 1e-9 * max(1.0, abs(b))):
+                ctx.fail('padded_convolve:offset', f'padded_convolve(N={n}, M={m}, unit-sum kernel, reflect) of y + {b} is not padded_convolve(y) + {b}', case)
+                found += 1
     # C18_convolve_index_modes_linear on the implementation: exact integer data, enumerated sizes, the four
     # index-function modes; a private generator so that the streams above and below are unchanged
     lrng = _random.Random(18180)
